@@ -3,8 +3,8 @@ from __future__ import annotations
 
 import z3
 
-from pyvc.api import (FnCheck, LoopSpec, Pure, register, Build, V, Val, IntS, RealS, BoolS, NONE, Unsupported, fresh,
-                      vany, vint, vreal, as_int, as_real, field, unbox_as)
+from pyvc.api import (FnCheck, LoopSpec, Pure, register, Build, V, Val, SeqVal, IntS, RealS, BoolS, NONE, Unsupported, fresh,
+                      vany, vint, vreal, vbool, as_int, as_real, field, unbox_as)
 from pyvc.state import GHOST_SORTS
 from . import lib
 
@@ -182,3 +182,96 @@ class OwnIdsPreregistered(_c14.OwnMessageIds):
     doc = ('add_outbound_message puts the MessageID of an outgoing message at the NEWEST end of the bounded id memory '
            '(appendleft, the end received ids are added to, so the next received ids evict older entries first) before '
            'the message is enqueued for sending: the looped-back copy is recognised as known')
+
+
+NT = MOD
+
+
+@register
+class SendLoopNeverEarly(FnCheck):
+    id = 'C15.send_loop_never_early'
+    prop = 'C15'
+    tag = 'S'
+    opaque_ok = True
+    target = f'{NT}:NetworkingThread._run_send'
+    doc = ('_run_send, arbitrary iteration: a queue entry is taken out and transmitted only when its scheduled send_time '
+           'has been reached according to time.time() read in that iteration - also while the thread is shutting down - '
+           'and what is transmitted is exactly the entry taken out; so no transmission happens before its scheduled '
+           'instant and the scheduled gaps (C15.schedule) are lower bounds of the real gaps. The upper deviation (10 ms '
+           'polling raster, socket latency) is not decided')
+
+    def setup(self, b):
+        st = b.st
+        self.T = b.real('head_send_time')
+        head = b.obj('queue_head', send_time=self.T)
+        qlist = b.obj('queue_list')
+        st.assume(z3.Select(st.get_arr('C'), qlist.e) == b.ex.ctx.builtin_class_ids['list'])
+        st.assume(z3.Select(st.get_arr('L'), qlist.e) == z3.Concat(z3.Unit(Val.ref(head.e)), z3.Const('queue_tail', SeqVal)))
+        self.head = head
+        self.q = b.obj('send_queue', queue=qlist)
+        self.o = b.obj('self', cls=(NT, 'NetworkingThread'), _send_queue=self.q)
+        b.distinct(self.o, self.q, qlist, head)
+        st.ghost['log'] = ()
+        return self.o, [], {}
+
+    stable_fields = ('send_time', 'queue', '_send_queue')
+
+    def callees(self, ex):
+        def now(ex_, st, args, kwargs):
+            t = fresh(RealS, 'now')
+            st.ghost['log'] += (('time', t),)
+            return vreal(t)
+
+        def get(ex_, st, args, kwargs):
+            st.ghost['log'] += (('get', None),)
+            return self.head
+
+        def send(ex_, st, args, kwargs):
+            st.ghost['log'] += (('send', st.box(args[0])),)
+            return NONE
+
+        def select(ex_, st, args, kwargs):
+            r = st.alloc('list')
+            key = st.alloc('SelectorKey')
+            st.write_field(key, 'fileobj', st.alloc('socket'))
+            st.set_list_seq(r, z3.Unit(Val.ref(key.e)))
+            return r
+        return {'time.time': Pure(now, name='time.time()'), 'time.sleep': Pure(lambda e, s, a, k: NONE, name='time.sleep'),
+                '*.is_set': Pure(lambda e, s, a, k: vbool(fresh(BoolS, 'quit')), name='Event.is_set()'),
+                '*.empty': Pure(lambda e, s, a, k: vbool(fresh(BoolS, 'empty')), name='Queue.empty()'),
+                'self._send_queue.get': Pure(get, name='Queue.get(): the head entry'),
+                f'{NT}:NetworkingThread._send_msg': Pure(send, name='_send_msg(entry, socket)')}
+
+    def hooks(self, ex):
+        class H:
+            tracked_names = ()
+
+            @staticmethod
+            def on_loop_havoc(ex_, st, node):
+                if ex_.loop_ordinal(node) == 0:
+                    st.ghost['log'] = ()
+        return H
+
+    def loops(self, ex):
+        def body(ex_, st, env):
+            if env['_phase'] != 'preserve':
+                return z3.BoolVal(True)
+            log = st.ghost['log']
+            names = [n for n, _ in log]
+            if 'get' in names:
+                i = names.index('get')
+                times = [v for n, v in log[:i] if n == 'time']
+                ex_.oblige(st, 'entry_taken_only_when_its_send_time_is_reached',
+                           z3.Or(*[self.T.e <= t for t in times]) if times else z3.BoolVal(False), kind='loop')
+            sends = [v for n, v in log if n == 'send']
+            ex_.oblige(st, 'only_the_entry_taken_out_is_transmitted', z3.And(
+                z3.BoolVal('get' in names or not sends), *[v == Val.ref(self.head.e) for v in sends]), kind='loop')
+            return z3.BoolVal(True)
+        return {0: LoopSpec(inv=body, havoc_heap=[]), 1: LoopSpec(inv=lambda e, s, env: z3.BoolVal(True), havoc_heap=[])}
+
+    def finish(self, ex, st0, outcomes, b):
+        names = {o.name for o in ex.ctx.obligations}
+        ex.oblige(st0, 'send_branch_is_analysed', z3.BoolVal('entry_taken_only_when_its_send_time_is_reached' in names))
+
+    def post(self, ex, st0, st, outcome, b):
+        pass
